@@ -230,7 +230,9 @@ def mergePythonVersion (depth : Nat) (s1 s2 : Single) (isMulti : Bool) : PyM (Op
     if M.beq mm (.leaf (.single nm)) then pure (some (.leaf (.single vm)))
     else
       match mm with
-      | .leaf (.single ms) => do
+      | .leaf (.single ms) =>
+        -- repo fix: a list value keeps its precision (`not in "3.8"` excludes 3.8.*, `not in "3.8.0"` only 3.8.0)
+        if ms.op == "in" || ms.op == "not in" then pure (some mm) else do
         let str := leafText ms.name ms.op ms.value ms.swapped
         let precision := countChar '.' str + 1
         let lt_ge := ms.op == "<" || ms.op == ">="
